@@ -373,7 +373,7 @@ def extract(res):
                         t = g[i].parent_op.ifm if not g[i].reversed_operands else g[i].parent_op.ifm2
                         buf.append({"p": [int(pi.stripe.height), int(pi.stripe.width), int(pi.stripe.depth)],
                                     "c": [int(ci.stripe_input.height), int(ci.stripe_input.width)],
-                                    "stor": [int(x) for x in t.storage_shape]})
+                                    "stor": [int(x) for x in t.storage_shape], "full_h": int(g[i].ifm.shape.height)})
                     except Exception:
                         pass
                 cascades.append({"n": len(g), "linear": bool(linear), "descs": descs, "real": real, "buffers": buf,
@@ -403,6 +403,14 @@ def make_net_c10(rng, idx, profile):
         cur = b.conv(cur, 16, (3, 3), (3, 3), (1, 1), "SAME")
         cur = b.conv(cur, 16, (3, 3), (1, 1), (1, 1), "SAME")
         b.net.desc.append("conv3x3 -> PAD(1,1 rows) -> conv2x2 VALID -> conv3x3/s3 -> conv3x3, IFM 1x128x16x16")
+        return b.finish([cur])
+    if profile == "known_odd_upscale":
+        b = netgen.B(rng, f"oddup{idx}", "int8")
+        x = b.input([1, 4, 4, 16])
+        cur = b.conv(x, 16, (3, 3), (1, 1), (1, 1), "SAME")
+        cur = b.resize(cur, 4, "RESIZE_NEAREST_NEIGHBOR", False, False)
+        cur = b.conv(cur, 16, (3, 3), (2, 2), (1, 1), "SAME")
+        b.net.desc.append("conv3x3 -> RESIZE_NEAREST_NEIGHBOR x4 -> conv3x3/s2, IFM 1x4x4x16")
         return b.finish([cur])
     if profile == "c10_pad_tall":
         b = netgen.B(rng, f"pad{idx}", "int8")
@@ -473,6 +481,8 @@ def sample_config_c10(rng, profile):
 
     if profile == "known_pad_tall":
         return ["--accelerator-config", "ethos-u65-256", "--optimise", "Size"]
+    if profile == "known_odd_upscale":
+        return ["--accelerator-config", "ethos-u65-256", "--optimise", "Size", "--arena-cache-size", "65536"]
     if profile in C10_PROFILES:
         acc = rng.choice(["ethos-u55-32", "ethos-u55-64", "ethos-u55-128", "ethos-u55-128", "ethos-u55-256", "ethos-u65-256", "ethos-u65-512"])
         opts = ["--accelerator-config", acc, "--optimise", rng.choice(["Size", "Size", "Size", "Performance"])]
